@@ -5,19 +5,30 @@ open Verif.Proto
 
 def parseNats (l : List String) : Option (List Nat) := l.mapM (·.toNat?)
 
-/-- `site <id> d <domain…> h <handled…> e <excused…>` → `total` or `missing k…` -/
+def parseStrip : String → Option Strip
+  | "none" => some .none
+  | "once" => some .once
+  | "loop" => some .loop
+  | _ => none
+
+/-- `site <id> d <domain…> h <handled…> e <excused…> s <none|once|loop> <stripKind>`
+→ `total` or `missing k…` -/
 def step (line : String) : String :=
   match tokens line with
   | "site" :: id :: "d" :: rest =>
     let dom := rest.takeWhile (· ≠ "h")
     let rest := (rest.dropWhile (· ≠ "h")).drop 1
     let han := rest.takeWhile (· ≠ "e")
-    let exc := (rest.dropWhile (· ≠ "e")).drop 1
-    match parseNats dom, parseNats han, parseNats exc with
-    | some d, some h, some e =>
-      let s : Site := ⟨id, d, h, e⟩
-      if siteTotal s then "total" else "missing " ++ " ".intercalate ((missing s).map toString)
-    | _, _, _ => "bad-op"
+    let rest := (rest.dropWhile (· ≠ "e")).drop 1
+    let exc := rest.takeWhile (· ≠ "s")
+    match (rest.dropWhile (· ≠ "s")).drop 1 with
+    | [m, k] =>
+      match parseNats dom, parseNats han, parseNats exc, parseStrip m, k.toNat? with
+      | some d, some h, some e, some st, some sk =>
+        let s : Site := ⟨id, d, h, e, st, sk⟩
+        if siteTotal s then "total" else "missing " ++ " ".intercalate ((missing s).map toString)
+      | _, _, _, _, _ => "bad-op"
+    | _ => "bad-op"
   | _ => "bad-op"
 
 end Verif.C03
